@@ -9,6 +9,7 @@ PROP = {
         "Verif.Properties.C10.desugar_differs_witness",
         "Verif.Properties.C10.desugar_equiv_partial",
         "Verif.Properties.C10.enforced_vm_partial",
+        "Verif.Properties.C10.before_extraction_wf",
     ],
     "streams": [
         {"name": "cond", "driver": "drv_cond",
